@@ -1,6 +1,8 @@
 package engine
 
 import (
+	"time"
+
 	"github.com/zishang520/engine.io-go-parser/packet"
 	"github.com/zishang520/engine.io/v2/transports"
 	"github.com/zishang520/engine.io/v2/types"
@@ -107,4 +109,27 @@ func VerifH_C12_server_close() {
 		verif.Assert(socks[i].ReadyState() == "closed", "every session is closed")
 	}
 	verif.Assert(ps.Clients().Len() == 0 && ps.ClientsCount() == 0, "client table empty after server close")
+}
+
+// VerifH_C12_silent_client: a graceful Close with data still buffered and a client that
+// never reads again: the session still closes within bounded time (the next heartbeat
+// deadline) and leaves the table.
+func VerifH_C12_silent_client() {
+	verif.RunTimed(func() {
+		I, T := verif.Int64(), verif.Int64()
+		verif.Assume(I >= 1 && I <= 1<<30 && T >= 1 && T <= 1<<30)
+		proto := [2]int{4, 3}[verif.Choose(2)]
+		w := newHbWorld(proto, time.Duration(I), time.Duration(T))
+		w.ft.onSend = nil // the client stops reading: no write cycle completes any more
+		w.sock.Send(types.NewStringBufferString("a"), nil, nil)
+		w.sock.Send(types.NewStringBufferString("b"), nil, nil)
+		t0 := verif.Now()
+		w.sock.Close(false)
+		verif.Assert(w.sock.ReadyState() == "closing", "closing while data is buffered")
+		verif.SleepUntil(t0 + 2*(I+T))
+		verif.Settle()
+		verif.Assert(w.sock.ReadyState() == "closed", "the session closes by the next heartbeat deadline even if the client never reads again")
+		verif.Assert(w.rec.count("close") == 1, "exactly one close event")
+		verif.Assert(w.ps.Clients().Len() == 0 && w.ps.ClientsCount() == 0, "client table empty")
+	})
 }
